@@ -10,6 +10,8 @@ RefBool on the perturbed trace gives the same verdict at t, and so does the sign
 """
 import copy
 
+import json
+
 from .. import specgen as sg
 from .. import monitors as M
 from .. import world
@@ -34,7 +36,7 @@ REAL = common.REAL_ALL
 STUBS = common.STUBS_ALL
 ENVELOPE_RULES = ['memory-past-above-delayed (F08) for the pastified online monitor']
 PROBES = ['pastified', 'positive_verdict', 'negative_verdict', 'zero_robustness_no_claim', 'perturbation_clause', 'nested_not_or_implies',
-          'dense_time', 'online']
+          'dense_time', 'online', 'modular_shared_delays']
 INF = float('inf')
 
 
@@ -70,8 +72,16 @@ def gen(rng, tier):
         r_ = rng.random()
         ast = core_ if r_ < 0.5 else (['not', core_] if r_ < 0.7 else [rng.choice(['and', 'or', 'implies']), core_, pr()])
         pvc = True
+    modular = None
+    if (not dense) and mode == 'on' and rng.random() < 0.15:
+        # a named sub-specification used at two places that need different delays after pastify()
+        g = common.gen_shared_delays(rng, vars_, set(ops) | {'eventually_b', 'always_b', 'next'}, strict_sorts=True, pred_var_const=True)
+        if g is not None and not _memory_above_future(g[0]):
+            ast, defs, top = g
+            pvc = True
+            modular = {'key': json.dumps(ast), 'subs': ['%s = %s;' % (nm, sg.to_text(a)) for nm, a in defs], 'top': 'out = ' + sg.to_text(top) + ';'}
     pastify = mode == 'on' and any(x[0] in sg.FUTURE_OPS for x in sg.walk(ast))
-    sc = {'kind': kind, 'mode': mode, 'vars': vars_, 'ast': ast, 'pvc': pvc, 'pastify': pastify,
+    sc = {'kind': kind, 'mode': mode, 'vars': vars_, 'ast': ast, 'pvc': pvc, 'pastify': pastify, 'modular': modular,
           'noise_seeds': [[rng.uniform(-1, 1) for _ in range(40)] for _ in range(3)]}
     if dense:
         sc['signals'] = dict((v, world.gen_dense_signal(rng, rng.randint(1, 6), start_q=0, max_gap_q=4)[0]) for v in vars_)
@@ -108,6 +118,9 @@ def sgn(v):
 
 def desc_of(sc):
     dense = sc['kind'].startswith('ct')
+    m = sc.get('modular')
+    if m and m['key'] == json.dumps(sc['ast']):
+        return {'cls': sc['kind'], 'vars': common.var_decls(sc['vars']), 'pastify': bool(sc.get('pastify')), 'subspecs': m['subs'], 'spec': m['top']}
     return {'cls': sc['kind'], 'vars': common.var_decls(sc['vars']), 'pastify': bool(sc.get('pastify')),
             'spec': common.dense_text(sc['ast']) if dense else 'out = ' + sg.to_text(sc['ast']) + ';'}
 
@@ -295,6 +308,8 @@ def run(sc):
         r.probes['dense_time'] += 1
     if sc['mode'] == 'on':
         r.probes['online'] += 1
+    if sc.get('modular') and sc['modular']['key'] == json.dumps(sc['ast']):
+        r.probes['modular_shared_delays'] += 1
     if any(s != 0 for s in signs) and checked:
         r.nontrivial.add('%s|%s%s|%s' % (sg.shape(sc['ast']), sc['kind'], sc['mode'], ''.join('+' if s > 0 else '-' if s < 0 else '0' for s in signs[:12])))
     return r
